@@ -7,24 +7,20 @@ From Coq Require Import ZifyBool Permutation.
 (* ------------------------------------------------------------------------------------------------ Oracle *)
 
 Theorem ora_limit_sem {A} (w : window) (R : list A) :
-  window_ok w = true -> fst w <> Some 0 -> ora_sem (ora_select (ora_section w)) R = win w R.
+  window_ok w = true -> ora_sem (ora_select (ora_section w)) R = win w R.
 Proof.
-  destruct w as [l o]. unfold window_ok, onat; cbn [fst snd]. intros H Hl.
+  destruct w as [l o]. unfold window_ok, onat; cbn [fst snd]. intros H.
   unfold ora_section, limit_section, ora_select, falsy, ora_sem, win; cbn [fst snd].
   destruct l as [l|], o as [o|].
-  - assert (l <> 0) by congruence. destruct (o =? 0) eqn:Eo.
-    + assert (o = 0) by lia. subst o. destruct (l =? 0) eqn:El; [lia|]. cbn [andb]. reflexivity.
-    + destruct (l =? 0) eqn:El; [lia|]. cbn [andb]. rewrite Eo. rewrite skipn_firstn_comm. f_equal. lia.
-  - assert (l <> 0) by congruence. destruct (l =? 0) eqn:El; [lia|]. reflexivity.
+  - destruct (o =? 0) eqn:Eo.
+    + assert (o = 0) by lia. subst o. reflexivity.
+    + cbn [andb]. rewrite Eo. rewrite skipn_firstn_comm. f_equal. lia.
+  - reflexivity.
   - destruct (o =? 0) eqn:Eo.
     + assert (o = 0) by lia. subst o. reflexivity.
     + cbn [andb]. rewrite Eo. reflexivity.
   - reflexivity.
 Qed.
-
-(* LIMIT 0 (q[:0], q[3:1], limit(0)): `if not limit and not offset` takes 0 for "no limit": every row is returned *)
-Lemma ora_limit_zero {A} (o : option Z) (R : list A) : ora_sem (ora_select (ora_section (combine (Some 0, o) no_window))) R = R.
-Proof. destruct o; reflexivity. Qed.
 
 (* ------------------------------------------------------------------------------------------------ queries *)
 
